@@ -187,7 +187,7 @@ def build_tools(ctx):
                 open(sum_dst, "w").write(a)
         except OSError:
             pass
-        for name, tags in (("translate", []), ("dump", ["-tags", "verif"])):
+        for name, tags in (("translate", ["-tags", "verif"]), ("dump", ["-tags", "verif"])):
             rc, out = sh(["go", "build"] + tags + ["-o", "bin/" + name, "./cmd/" + name],
                          cwd=HARNESS, env=GOENV, timeout=600)
             if rc != 0:
